@@ -305,8 +305,8 @@ pub fn run(mut run: Run) -> i32 {
             }
         }
     }
-    // far-away scales (2^-30 ~ 1e-9 and 2^30 ~ 1e9, both exact): nothing may depend on an absolute size or an absolute epsilon
-    for (k, s, t) in [(0usize, 1.0 / 1073741824.0, (0.0, 0.0)), (3, 1073741824.0, (0.0, 0.0)), (6, 1.0 / 1073741824.0, (1.0 / 1024.0, 0.0))] {
+    // far-away scales (2^-30 ~ 1e-9, 2^30 ~ 1e9, 2^-60 and 2^-200, all exact): nothing may depend on an absolute size or an absolute epsilon
+    for (k, s, t) in [(0usize, 1.0 / 1073741824.0, (0.0, 0.0)), (3, 1073741824.0, (0.0, 0.0)), (6, 1.0 / 1073741824.0, (1.0 / 1024.0, 0.0)), (1, 2f64.powi(-60), (0.0, 0.0)), (4, 2f64.powi(-200), (0.0, 0.0))] {
         let m = d4[k];
         let refl = m[0] * m[3] - m[1] * m[2] < 0;
         maps.push((AffineTransform::new(m[0] as f64 * s, m[1] as f64 * s, t.0, m[2] as f64 * s, m[3] as f64 * s, t.1), s, refl, format!("D4[{}] t={:?} s={:e}", k, t, s)));
@@ -360,8 +360,33 @@ pub fn run(mut run: Run) -> i32 {
             _ => None,
         };
         acc.class(format!("single {}", tname(g)));
+        // the polygon's exterior written from its least vertex with the closing coordinate repeated (.., p0, p0): the same ring
+        let dup_ring: Option<geo::LineString<f64>> = match g {
+            Geometry::Polygon(p) if p.exterior().0.len() >= 4 => {
+                let open = &p.exterior().0[..p.exterior().0.len() - 1];
+                let k = (0..open.len()).min_by(|&i, &j| (open[i].x, open[i].y).partial_cmp(&(open[j].x, open[j].y)).unwrap()).unwrap();
+                let mut v: Vec<Coord<f64>> = (0..open.len()).map(|i| open[(i + k) % open.len()]).collect();
+                v.push(v[0]);
+                v.push(v[0]);
+                Some(geo::LineString::new(v))
+            }
+            _ => None,
+        };
+        if let Some(d) = &dup_ring {
+            if d.winding_order() != wind0 {
+                acc.viol("winding order of a ring changes when it is written from its least vertex with a repeated closing coordinate".into(), idx, || json!({"ring": format!("{:?}", d), "expected": format!("{:?}", wind0), "got": format!("{:?}", d.winding_order())}));
+            }
+        }
         for (m, s, refl, name) in &maps {
             let t = g.affine_transform(m);
+            if let Some(d) = &dup_ring {
+                let (w0, w1) = (d.winding_order(), d.affine_transform(m).winding_order());
+                acc.evals += 1;
+                let consistent = match (w0, w1) { (None, None) => true, (Some(a), Some(b)) => (a != b) == *refl, _ => false };
+                if !consistent {
+                    acc.viol("winding order of a ring with a repeated closing coordinate is not carried through an exact similarity map".into(), idx, || json!({"ring": format!("{:?}", d), "map": name, "before": format!("{:?}", w0), "after": format!("{:?}", w1)}));
+                }
+            }
             acc.evals += 6;
             let wit = |what: &str| json!({"geometry": format!("{:?}", g), "map": name, "transformed": format!("{:?}", t), "what": what});
             // Rect and Triangle re-normalise their corner order when rebuilt (documented; C19 known finding for Triangle), so the *sign* of their
@@ -375,12 +400,12 @@ pub fn run(mut run: Run) -> i32 {
             }
             let normalised = has_normalising_member(g);
             let (u0, u1) = (g.unsigned_area(), t.unsigned_area());
-            if (u1 - u0 * s * s).abs() > 1e-12 * (1.0 + u0 * s * s) {
+            if (u1 - u0 * s * s).abs() > 1e-12 * (1.0 + u0) * s * s {
                 acc.viol("unsigned area does not scale by s^2".into(), idx, || wit(&format!("unsigned area {} -> {}", u0, u1)));
             }
             let a1 = t.signed_area();
             let want_area = if *refl && !normalised { -area0 } else { area0 } * s * s;
-            if (a1 - want_area).abs() > 1e-12 * (1.0 + want_area.abs()) && !normalised {
+            if (a1 - want_area).abs() > 1e-12 * (1.0 + area0.abs()) * s * s && !normalised {
                 acc.viol("area does not scale by s^2 (with sign flip under reflection)".into(), idx, || wit(&format!("area {} -> {}", area0, a1)));
             }
             if crate::with_geom!(&t, x => x.is_valid()) != valid0 {
